@@ -13,7 +13,7 @@ import vlib, gnet
 import n07_model as M
 
 PERM_KINDS = ("pp", "pc", "po")
-QUICK_ALL_BASES = ("tr", "turn", "turn0", "ax")          # kinds run on every base in the quick tier
+QUICK_ALL_BASES = ("tr", "turn", "turn0", "swf", "ax")          # kinds run on every base in the quick tier
 _words_cache = {}
 
 
@@ -208,11 +208,11 @@ def main():
             "and the mirrored frames puts reading, set orientation and bearing on either side of 0/400 (see the wrap(...) outcome classes); "
             "all permutations of point records, of clusters and of the observations of each cluster (<=5 items: all n!-1; 6 items: 5 cyclic shifts + reversal + 5 adjacent "
             "transpositions), covariance matrices permuted; 46 id maps (order reversing numeric; 10 numeric-looking families: 1, 9, 10, 18, 19, 20, 25 digits around 2^31, 2^32, 2^63-1, 2^64-1 with ids differing in the last digit, leading zeros, signed-looking, mixed; mixed 2-/3-/4-byte UTF-8; 40 characters; inner single blanks and no-break spaces; two generated families u2-0..15 / u3-0..15 of 2- and 3-byte UTF-8 ids whose continuation bytes between them take every value 0x80..0xBF in every position, with ids that differ in one continuation byte only and ids with an inner blank); gon -> d-m-s with stdev/covariances in arc seconds "
-            "for every non-empty subset of clusters + alternating observations; ends swapped for every non-empty subset of the distances; 8 axes-xy x 2 angles. "
+            "for every non-empty subset of clusters + alternating observations; ends swapped for every non-empty subset of the distances; swf: every distance of a station cluster that also holds directions written with swapped ends AND moved to the first position of its cluster; 8 axes-xy x 2 angles. "
             % json.dumps(menu).replace('"', ""))
     if thorough:
         rule += ("thorough: every single transition on every base x 4 algorithms, plus all ordered pairs of distinct letters of the reduced menu "
-                 "(net2d 26, net3d 20, lev 10, netc 18, netw 15 letters) on every base with algorithm = ALGS[pattern mod 4]. ")
+                 "(net2d 26, net3d 20, lev 10, netc 18, netw 15 letters; net2d also: all distances swapped x every observation order of every cluster) on every base with algorithm = ALGS[pattern mod 4]. ")
     else:
         rule += ("quick: translation/turn/axes transitions on every base with envelope and on every 4th pattern also with gso; all other single transitions on every 16th (net2d) / 8th (other templates) pattern (envelope and gso). ")
     rule += ("a state = one distinct (base network, word) input text, a transition = one gama-local execution; oracle per state: adjusted/fixed/approximate coordinates = affine image, "
